@@ -95,6 +95,7 @@ type rtWorld struct {
 	exitCbs  []error
 	exitCbs2 []error
 	stateSeq atomic.Int64
+	cmp      func(a, b int) bool // the state equivalence handed to the container (nil: every SetState replaces)
 }
 
 // recBackoff is a constant 1 ms backoff that records its calls.
@@ -163,6 +164,7 @@ func newRtWorldBackoff(c *mon.Case, state, withCmp, retry bool, behave rtBehavio
 	}))
 	if state {
 		var cmp func(a, b int) bool
+		defer func() { w.cmp = cmp }()
 		if withCmp {
 			if c.Index%2 == 0 {
 				cmp = func(a, b int) bool { return a == b }
@@ -753,6 +755,21 @@ func c05Case(c *mon.Case, state, retry, concurrent bool) {
 			pace(rr)
 		}
 	}
+	// with a single goroutine writing the state, the stored state is known: what was set last, unless the
+	// container's equivalence says it is the same as what it already held
+	expState := 0
+	checkStored := func(g int) {
+		if w.src == nil {
+			return
+		}
+		if w.cmp == nil || !w.cmp(expState, g) {
+			expState = g
+		}
+		c.Count("stored_state_checks", 1)
+		if got := w.src.GetState(); got != expState {
+			c.Violate("survivor", "state-not-stored", "after SetState/SwapValue(%d) by the only writer GetState() = %d, want %d", g, got, expState)
+		}
+	}
 	setOps := func(actor string, rr interface{ IntN(int) int }, n int, single bool) {
 		for i := 0; i < n; i++ {
 			enterCall()
@@ -763,6 +780,7 @@ func c05Case(c *mon.Case, state, retry, concurrent bool) {
 				call, ch, sup := w.setGen(actor, g)
 				if single {
 					lastGenRC.Store(int64(g))
+					checkStored(g)
 				}
 				w.watchWaitCh(call, ch)
 				if sup {
@@ -772,6 +790,7 @@ func c05Case(c *mon.Case, state, retry, concurrent bool) {
 				call, _, sup := w.setGen(actor, 0)
 				if single {
 					lastGenRC.Store(0)
+					checkStored(0)
 				}
 				if sup {
 					w.checkSuperseded(call, "SetRoutine(nil)/SetState(empty)")
@@ -779,6 +798,9 @@ func c05Case(c *mon.Case, state, retry, concurrent bool) {
 			case k < 9 && w.src != nil:
 				g := int(genSeq.Add(1))
 				call, _, sup := w.swapState(actor, g)
+				if single {
+					checkStored(g)
+				}
 				if sup {
 					w.checkSuperseded(call, "SwapValue")
 				}
